@@ -4,3 +4,4 @@ pub mod dur;
 pub mod round;
 pub mod dateadd;
 pub mod tz;
+pub mod fmt;
